@@ -8,6 +8,7 @@ From Snax Require Import Base.Prelude Model.C19Stride.
 
 Inductive ident :=
   | IdUb | IdTs | IdSs | IdOpts | IdTemp | IdSpat | IdR | IdW | IdN | IdI | IdA | IdC | IdBm | IdB
+  | IdMaxpool | IdMemset | IdT | IdAddExt | IdAddExtLong | IdRescaleDown | IdRescaleUp   (* xDMA extension options *)
   | IdTrue | IdFalse | IdOther.
 Inductive stok :=
   | KLt | KGt | KLSq | KRSq | KEq | KComma | KMinus | KId (i : ident) | KInt (z : Z) | KOther.
@@ -16,6 +17,8 @@ Definition ident_eqb (a b : ident) : bool :=
   match a, b with
   | IdUb, IdUb | IdTs, IdTs | IdSs, IdSs | IdOpts, IdOpts | IdTemp, IdTemp | IdSpat, IdSpat | IdR, IdR
   | IdW, IdW | IdN, IdN | IdI, IdI | IdA, IdA | IdC, IdC | IdBm, IdBm | IdB, IdB | IdTrue, IdTrue
+  | IdMaxpool, IdMaxpool | IdMemset, IdMemset | IdT, IdT | IdAddExt, IdAddExt | IdAddExtLong, IdAddExtLong
+  | IdRescaleDown, IdRescaleDown | IdRescaleUp, IdRescaleUp
   | IdFalse, IdFalse | IdOther, IdOther => true
   | _, _ => false
   end.
@@ -107,7 +110,11 @@ Definition parse_sp (toks : list stok) : option (spattern * list stok) :=
 (* ---- StreamerConfiguration --------------------------------------------------------------------- *)
 Inductive stype := SReader | SWriter.
 Inductive sflag := FNormal | FIrrelevant | FReuse.
-Inductive sopt := OAddrRemap | OChanMask | OByteMask | OBroadcast.
+(* every key of STREAMER_OPT_MAP (snaxc/accelerators/streamers/extensions/__init__.py): the four streamer
+   options a c bm b and the seven xDMA extensions maxpool_ext memset_ext t add_ext add_ext_long
+   rescale_down_ext rescale_up_ext (all parameterless classes: print = .name, parse = MAP[name]()) *)
+Inductive sopt := OAddrRemap | OChanMask | OByteMask | OBroadcast
+  | OMaxpool | OMemset | OTranspose | OAddExt | OAddExtLong | ORescaleDown | ORescaleUp.
 Inductive ssys := SysRegular | SysXdma.
 Record streamer := Streamer { st_type : stype; st_temp : list sflag; st_spat : list Z; st_opts : list sopt }.
 Record sconfig := SConfig { sc_streamers : list streamer; sc_sys : ssys }.
@@ -115,12 +122,21 @@ Record sconfig := SConfig { sc_streamers : list streamer; sc_sys : ssys }.
 Definition id_of_type (t : stype) : ident := match t with SReader => IdR | SWriter => IdW end.
 Definition id_of_flag (f : sflag) : ident := match f with FNormal => IdN | FIrrelevant => IdI | FReuse => IdR end.
 Definition id_of_opt (o : sopt) : ident :=
-  match o with OAddrRemap => IdA | OChanMask => IdC | OByteMask => IdBm | OBroadcast => IdB end.
+  match o with
+  | OAddrRemap => IdA | OChanMask => IdC | OByteMask => IdBm | OBroadcast => IdB
+  | OMaxpool => IdMaxpool | OMemset => IdMemset | OTranspose => IdT | OAddExt => IdAddExt
+  | OAddExtLong => IdAddExtLong | ORescaleDown => IdRescaleDown | ORescaleUp => IdRescaleUp
+  end.
 Definition type_of_id (i : ident) : option stype := match i with IdR => Some SReader | IdW => Some SWriter | _ => None end.
 Definition flag_of_id (i : ident) : option sflag :=
   match i with IdN => Some FNormal | IdI => Some FIrrelevant | IdR => Some FReuse | _ => None end.
 Definition opt_of_id (i : ident) : option sopt :=
-  match i with IdA => Some OAddrRemap | IdC => Some OChanMask | IdBm => Some OByteMask | IdB => Some OBroadcast | _ => None end.
+  match i with
+  | IdA => Some OAddrRemap | IdC => Some OChanMask | IdBm => Some OByteMask | IdB => Some OBroadcast
+  | IdMaxpool => Some OMaxpool | IdMemset => Some OMemset | IdT => Some OTranspose | IdAddExt => Some OAddExt
+  | IdAddExtLong => Some OAddExtLong | IdRescaleDown => Some ORescaleDown | IdRescaleUp => Some ORescaleUp
+  | _ => None
+  end.
 
 (* '-'.join(items) *)
 Fixpoint print_dashed {A} (pr : A -> list stok) (l : list A) : list stok :=
@@ -247,7 +263,9 @@ Definition sflag_eqb (a b : sflag) :=
   match a, b with FNormal, FNormal | FIrrelevant, FIrrelevant | FReuse, FReuse => true | _, _ => false end.
 Definition sopt_eqb (a b : sopt) :=
   match a, b with
-  | OAddrRemap, OAddrRemap | OChanMask, OChanMask | OByteMask, OByteMask | OBroadcast, OBroadcast => true
+  | OAddrRemap, OAddrRemap | OChanMask, OChanMask | OByteMask, OByteMask | OBroadcast, OBroadcast
+  | OMaxpool, OMaxpool | OMemset, OMemset | OTranspose, OTranspose | OAddExt, OAddExt | OAddExtLong, OAddExtLong
+  | ORescaleDown, ORescaleDown | ORescaleUp, ORescaleUp => true
   | _, _ => false
   end.
 Definition ssys_eqb (a b : ssys) := match a, b with SysRegular, SysRegular | SysXdma, SysXdma => true | _, _ => false end.
